@@ -16,6 +16,9 @@ NOT_APPLICABLE = {
 
 TRUST = "Trusted: Kani 0.68 / CBMC 6.11 / CaDiCaL, rustc's MIR, the reference model in harness/src/spec.rs (xspec.rs, lk.rs) and, where listed, the std models of harness/src/stubs.rs."
 
+# properties whose checks have been run green on the unchanged tree (everything else is listed under not_applicable with the reason)
+READY = ["C06", "C07", "C11", "C14", "C15", "C17", "C18"]
+
 CLAIMS = {
     "C01": {
         "text": "Totality is decided as the absence of any reachable panic, arithmetic overflow, out-of-bounds access or unwinding-bound violation (= termination within the stated loop bounds) in the real parsers, getters and setters when every input byte is a solver variable: token-level language-identifier parser on 1..4 arbitrary subtags of 0..9 arbitrary bytes, byte-level from_bytes on all strings of <= 4 bytes, the extension dispatcher on arbitrary subtags, every extension-body parser and every extension getter/setter on arbitrary arguments. The solver found the unimplemented!() panic (now fixed) from a subtag of eight NUL bytes.",
